@@ -350,6 +350,25 @@ func init() {
 					{Name: "sc", Constructor: P("pk.New3")}, {Name: "consumer", Constructor: P("pk2.New"), Args: []any{"!tagged t"}}}
 				cases = append(cases, &BCase{ID: "J/local-and-qualified-decorators=" + id, Cfg: cfg, Local: true, Sessions: []BSession{{Ops: stdOps()}}})
 			}
+			// (K) the typed getter of a decorated service returns what Get returns, whatever the creation method and scope
+			for ki, sv := range []Service{
+				{Value: P("&pk.Obj{}"), Scope: P("non_shared")}, {Value: P("&pk.Obj{}")}, {Value: P("pk.Var"), Scope: P("contextual")},
+				{Constructor: P("pk.New1"), Scope: P("non_shared")}, {Constructor: P("pk.New1")}, {Type: P("pk2.Val")},
+			} {
+				cfg := &Cfg{Meta: stdMeta()}
+				sv.Name, sv.Getter, sv.MustGetter = "sa", P("FetchSa"), P(true)
+				if sv.Type != nil {
+					sv.Getter, sv.MustGetter = nil, nil // a typed getter cannot return the decorator's wrapper
+				}
+				sv.Tags = []Tag{{Name: "t"}}
+				cfg.Services = []Service{sv, {Name: "sb", Constructor: P("pk.New2")}, {Name: "sc", Constructor: P("pk.New3")}, {Name: "consumer", Constructor: P("pk2.New"), Args: []any{"!tagged t"}}}
+				cfg.Decorators = []Decorator{{Tag: "t", Decorator: "pk.Dec1", Args: []any{"k"}}, {Tag: "t", Decorator: "pk2.Dec2"}}
+				ops := stdOps()
+				if sv.Getter != nil {
+					ops = append(ops, op("getter", "FetchSa"), op("mustgetter", "MustFetchSa"), opCtx("getterctx", "A", "FetchSaInContext"), opCtx("getctx", "A", "sa"), op("getter", "FetchSa"))
+				}
+				cases = append(cases, &BCase{ID: fmt.Sprintf("K/getter-of-decorated/%d", ki), Cfg: cfg, Sessions: []BSession{{Ops: ops}}})
+			}
 			// (D) scopes of carriers
 			scopes := []*string{nil, P("shared"), P("non_shared"), P("contextual")}
 			for a := 0; a < 4; a++ {
